@@ -1,17 +1,25 @@
 """C18 — command-line parsing follows the documented option grammar for every argv.
 
-Correspondence: harness/h_getopt.c (util/getopt.c through the GETOPT_* macros, four compile-time
-tables) against `pmodel getopt` (L1 printed from Spec.Getopt.getopt, L2 from Model.Getopt's states).
+Correspondence: harness/h_getopt.c (util/getopt.c through the GETOPT_* macros, nine compile-time
+tables: with / without GETOPT_MISSING_ARG, GETOPT_DEFAULT only, 1..16 source lines) against `pmodel getopt` (L1 printed from Spec.Getopt.getopt, L2 from Model.Getopt's states).
 Cases: EXHAUSTIVE enumeration of every argv of length <= 3 (quick) / <= 4 (thorough; <= 5 for table 0)
-over a per-table alphabet of 15..17 words, a directed abandoned-parse sweep, and random vectors up to
-length 8.  Every `case` starts like a fresh process (the harness re-initialises getopt.c's variables), so
+over a per-table alphabet of 15..20 words (one word less for the two 20-word tables), a directed abandoned-parse
+sweep, a directed reset sweep (every ORDERED pair of tables in one process, the later argv ending in an option
+whose argument is missing, or naming options only the other table has), and random vectors up to length 8.  Every `case` starts like a fresh process (the harness re-initialises getopt.c's variables), so
 the first parse of a case is a fresh parse and the others are parses after optreset = 1."""
 import itertools
 import os
 import vlib
 
 MODULES = ["Percival.Properties.C18"]
-NTABLES = 4
+NTABLES = 9
+# mirror of harness/h_getopt.c / Model/GetoptStep.lean `tables` (only used to BUILD inputs; answers come from pmodel)
+HAS_MISSING = {0: True, 1: False, 2: True, 3: False, 4: False, 5: True, 6: False, 7: True, 8: False}
+NLINES = {0: 6, 1: 6, 2: 9, 3: 7, 4: 1, 5: 3, 6: 3, 7: 14, 8: 16}          # line offset of GETOPT_DEFAULT
+ARGOPTS = {0: ["-b", "--bar"], 1: ["-b", "--bar"], 2: ["-o", "--foobar", "--f"], 3: ["-x", "--x"], 4: [], 5: ["-b"],
+           6: ["--bar", "-b"], 7: ["-b", "--bar", "--zed", "-q"], 8: ["-q", "-b", "--bar", "--zed"]}
+FLAGS = {0: ["-a", "--foo"], 1: ["-a", "--foo"], 2: ["-f", "-b", "--foo", "--fo"], 3: ["-=", "-y", "--y"], 4: [], 5: [], 6: [],
+         7: ["-a", "--foo", "-z"], 8: ["-a", "--foo", "-y", "-z", "--yy"]}
 
 
 def hx(s):
@@ -31,11 +39,19 @@ ALPHABET = {
     3: ["-=", "-x", "-x=", "-y=x", "-yx", "--x", "--x=", "--x=v", "--y", "--y=v", "-z", "--=",
         "-", "--", "", "op"],
 }
+T78 = ["-a", "-b", "-ab", "-bx", "-z", "-q", "-zq", "-qz", "--foo", "--bar", "--bar=x", "--zed", "--zed=", "--zed=v",
+       "-y", "--yy", "-", "--", "", "op"]
+for _t in (4, 5, 6):
+    ALPHABET[_t] = T01          # t4: every option unknown; t5/t6: -b (and --bar) known
+ALPHABET[7] = T78
+ALPHABET[8] = T78
 EXTRA = ["-a-", "-a-b", "---", "--=", "--=x", "-ba", "-abab", "--foo=", "--foo==", "--foobar", "--bar=--",
          "--bar=-b", "=", "a=b", "-b-", "-b--", "-o-", "--f=--", "-x--", "-=x", "-y-", "--x==", "--y=",
          "--fooba", "--foobarx", "--foo-", "-ob", "-fo", "-of", "-bfoo", "-xy", "-yyx", "-xx", "--a", "-/"]
 ARGV0 = ["p", "/usr/bin/p", "a/", "/", "", "-a", "--", "x/y/z"]
-PROBE = {0: ["-ab", "x", "--foo"], 1: ["-ab", "x", "--foo"], 2: ["-fo", "x", "--fo"], 3: ["-yx", "v", "--y"]}
+PROBE = {0: ["-ab", "x", "--foo"], 1: ["-ab", "x", "--foo"], 2: ["-fo", "x", "--fo"], 3: ["-yx", "v", "--y"],
+         4: ["-ab", "x", "--foo"], 5: ["-b", "x", "-bb"], 6: ["--bar", "x", "-b", "y"], 7: ["-aq", "x", "--zed=", "-z"],
+         8: ["-yq", "x", "--zed", "v", "--yy"]}
 CHUNK = 64
 
 
@@ -54,6 +70,8 @@ def exhaustive_ops(tier):
         n0 = len(ops)
         # thorough: one more word for the table of the repo's own test (t0)
         maxlen = 3 if tier == "quick" else (5 if t == 0 else 4)
+        if len(ALPHABET[t]) > 17:
+            maxlen -= 1                                    # the two 20-word tables
         for ln in range(maxlen + 1):
             for words in itertools.product(ALPHABET[t], repeat=ln):
                 ops.append(op(t, 0, "p", words))
@@ -73,6 +91,92 @@ def abandoned_ops(tier):
                     t2 = (t + 1) % NTABLES if k == 2 else t     # same switch again, or another one
                     ops.append(op(t2, 0, "q/p", PROBE[t2]))
     return ops
+
+
+def all_names():
+    names = []
+    for t in range(NTABLES):
+        for o in ARGOPTS[t] + FLAGS[t]:
+            if o not in names:
+                names.append(o)
+    return names
+
+
+def reset_firsts(t):
+    """argument vectors for the EARLIER parse: nothing; one that reaches the missing-argument path of table t (so a
+    handler, if any, has been used); every option of t once, in a valid vector; the probe"""
+    fs = [[]]
+    if ARGOPTS[t]:
+        fs.append([ARGOPTS[t][0]])
+    full = []
+    for o in FLAGS[t]:
+        full.append(o)
+    for o in ARGOPTS[t]:
+        full += [o, "v"]
+    fs.append(full + ["op"])
+    fs.append(PROBE[t])
+    return fs
+
+
+def reset_seconds(t):
+    """argument vectors for the LATER parse with table t: (a) ending in an option that takes an argument but has none
+    (alone, after another option, at the end of a packed group, long form) -> GETOPT_MISSING_ARG if t has one, else
+    GETOPT_DEFAULT, whatever an earlier switch registered; (b) options which only OTHER tables register (a slot or a
+    range left over from a larger table makes them known / argument-taking); (c) the probe"""
+    ss = []
+    fl = FLAGS[t][0] if FLAGS[t] else None
+    shortflag = next((f for f in FLAGS[t] if not f.startswith("--")), None)
+    for o in ARGOPTS[t]:
+        ss.append([o])
+        if fl:
+            ss.append([fl, o])
+        if shortflag and not o.startswith("--"):
+            ss.append([shortflag + o[1:]])                 # packed: -ab
+        ss.append([ARGOPTS[t][-1], "v", o])
+    mine = ARGOPTS[t] + FLAGS[t]
+    for o in all_names():
+        if o in mine or any(matches(m, o) for m in mine):
+            continue
+        ss.append([o])
+        ss.append([o, "x", fl or "-a"])                    # unknown: reported, then the operand x ends the parse
+        if ARGOPTS[t]:
+            ss.append([o, ARGOPTS[t][0]])                  # unknown, then a missing argument
+    ss.append(PROBE[t])
+    return ss
+
+
+def matches(name, word):
+    return word == name or (name.startswith("--") and word.startswith(name + "="))
+
+
+def reset_pair_cases(tier):
+    """several parses in ONE process separated by optreset: every ordered pair (ta, tb) of the tables (with and without
+    GETOPT_MISSING_ARG, GETOPT_DEFAULT only, 1..16 lines; ta == tb included), alternating ta / tb so that each later parse
+    directly follows a parse with the other switch; one case per (ta, tb, earlier vector)"""
+    cases = []
+    for ta in range(NTABLES):
+        for tb in range(NTABLES):
+            for fi, first in enumerate(reset_firsts(ta)):
+                ops = []
+                for si, second in enumerate(reset_seconds(tb)):
+                    # the earlier parse runs to its end, or (every third) is abandoned after its first report
+                    k = 1 if (first and (si + fi) % 3 == 2) else 0
+                    ops.append(op(ta, k, "p", first))
+                    ops.append(op(tb, 0, "q", second))
+                cases.append(ops)
+    if tier != "quick":
+        # three switches in a row: handler / no handler / handler and sizes up / down / up
+        for ta in range(NTABLES):
+            for tb in range(NTABLES):
+                for tc in range(NTABLES):
+                    if ta == tb or tb == tc:
+                        continue
+                    ops = []
+                    for second in reset_seconds(tc)[:12]:
+                        ops += [op(ta, 0, "p", reset_firsts(ta)[-2]), op(tb, 0, "p", reset_firsts(tb)[1 % len(reset_firsts(tb))]),
+                                op(tc, 0, "q", second)]
+                    cases.append(ops)
+    return cases
 
 
 def random_word(r, t):
@@ -97,6 +201,9 @@ def random_ops(r, n):
             continue
         ln = r.choice([0, 1, 2, 3, 4, 5, 5, 6, 6, 7, 7, 8, 8, 8])
         words = [random_word(r, t) for _ in range(ln)]
+        if r.chance(1, 4):
+            # the vector ends in an option without its argument: of this table, or one only another table has
+            words.append(r.choice(ARGOPTS[t]) if ARGOPTS[t] and r.chance(3, 4) else r.choice(all_names()))
         k = r.range(1, 4) if r.chance(1, 6) else 0
         ops.append(op(t, k, r.choice(ARGV0), words))
     return ops
@@ -119,6 +226,10 @@ def gen_getopt(rng, tier, mult):
         ab = abandoned_ops(tier)
         EXH_COUNTS["abandoned-parse sweep (ops)"] = len(ab)
         cases += chunk(ab)
+        rp = reset_pair_cases(tier)
+        EXH_COUNTS["reset sweep: ordered table pairs%s (cases)" % ("" if tier == "quick" else " and triples")] = len(rp)
+        EXH_COUNTS["reset sweep (ops)"] = sum(len(c) for c in rp)
+        cases += rp
     nrand = (6000 if tier == "quick" else 60000) * mult
     r = rng.fork("rand")
     # short cases (1..6 parses) so that state carried from one parse to the next is varied
@@ -156,6 +267,23 @@ def classify(case, out):
             kind = tok.split(":")[0].split("=")[0]
             tags.append("report:" + kind)
         tags.append("reports=%s" % (len(l1) - 1 if len(l1) - 1 < 6 else ">=6"))
+    # state carried over optreset from one switch to another (the previous op of the same case)
+    for prev, o in zip(case, case[1:]):
+        a, b = prev.split(), o.split()
+        try:
+            ta, tb = int(a[1]), int(b[1])
+        except (ValueError, IndexError):
+            continue
+        if ta == tb or ta not in NLINES or tb not in NLINES:
+            continue
+        last = bytes.fromhex(b[-1]).decode("latin1") if len(b) > 4 and b[-1] != "-" else ""
+        end_missing = last in ARGOPTS[tb] or (len(last) > 2 and not last.startswith("--") and "-" + last[-1] in ARGOPTS[tb])
+        hm = "%s->%s" % ("handler" if HAS_MISSING[ta] else "nohandler", "handler" if HAS_MISSING[tb] else "nohandler")
+        tags.append("reset:%s%s" % (hm, ":argv-ends-in-missing-argument" if end_missing else ""))
+        tags.append("reset:" + ("larger->smaller" if NLINES[ta] > NLINES[tb] else "smaller->larger" if NLINES[ta] < NLINES[tb]
+                                else "same-size"))
+        if NLINES[ta] == 1 or NLINES[tb] == 1:
+            tags.append("reset:default-only->options" if NLINES[ta] == 1 else "reset:options->default-only")
     return tags
 
 
@@ -163,11 +291,18 @@ def components(ctx):
     return [vlib.Component(
         "getopt", "h_getopt.c", [], ["getopt"], gen_getopt, nontrivial=nontrivial,
         rule="(1) exhaustive: every argv of length 0..3 (quick) / 0..4 (thorough; 0..5 for table 0) over the per-table alphabet "
-             "(15-17 words: registered/unregistered short and long options, packed groups, attached and =value "
-             "arguments incl. empty, abbreviations, '-', '--', empty word, operand) for each of the 4 compile-time tables, "
+             "(15-20 words: registered/unregistered short and long options, packed groups, attached and =value "
+             "arguments incl. empty, abbreviations, '-', '--', empty word, operand; one word less for the two 20-word tables) "
+             "for each of the 9 compile-time tables (4 with GETOPT_MISSING_ARG - first, middle, last line -, 5 without, one of "
+             "them GETOPT_DEFAULT only; 1..16 source lines), "
              "%d parses per case; (2) abandoned-parse sweep: every argv of length 1..2 (quick) / 1..3 (thorough), loop left "
-             "after 1 or 2 reports, followed by optreset and a probe vector; (3) random vectors of 0..8 words (alphabet, "
-             "extra hostile words, random strings over '-=abfoxyq/', high bytes), random argv[0], argc=0, 1..6 parses per case. "
+             "after 1 or 2 reports, followed by optreset and a probe vector; (2b) reset sweep: several parses in one process "
+             "separated by optreset, every ORDERED pair of tables (thorough: also triples), the later argv ending in an option "
+             "that takes an argument but has none (alone / after another option / end of a packed group / long) or naming "
+             "options only other tables register, the earlier parse complete or abandoned; (3) random vectors of 0..8 words (alphabet, "
+             "extra hostile words, random strings over '-=abfoxyq/', high bytes), random argv[0], argc=0, 1..6 parses per case with independently chosen tables, every fourth vector ending in an "
+             "argument-taking option without argument. L1 names the label reached (opt/arg/mis/def, and kind@label if an option "
+             "label is reached for another option). "
              "Non-trivial = some parse has a word that looks like an option ('-' plus at least one more byte); "
              "distinct by hash of the op list" % CHUNK,
         classify=classify)]
@@ -242,6 +377,9 @@ def check(ctx):
     for comp in comps:
         ctx.rules.append("%s: %s" % (comp.name, comp.rule))
         fails = vlib.check_component(ctx, comp)
+        for k, v in EXH_COUNTS.items():
+            if "sweep" in k:
+                ctx.cov["distribution"][k] = v               # directed sweeps, as counted by the generator
         if ctx.enlarge() and not [f for f in fails if f["kind"] == "L1"]:
             fails += vlib.check_component(ctx, comp, budget_mult=10)     # broken proof: enlarge the search
         # standard flow + minimisation inside the argument vectors of the shortest property-level failures
